@@ -30,6 +30,8 @@ struct Case {
     /// bit 0: R_A, 1: R_B, 2: S_B, 3: S_A tampered in transit
     subset: u8,
     kind: Kind,
+    /// honest run in which A calls exchange_1 twice and B calls exchange_2 twice (the later call counts)
+    repeat: bool,
 }
 
 fn wit(c: &Case) -> serde_json::Value {
@@ -106,6 +108,18 @@ fn history(ctx: &mut Ctx, c: &Case, p: &mut Prng) {
     };
     // ---- step 1 (A)
     ctx.eval();
+    if c.repeat && c.subset == 0 {
+        // a first call whose result is discarded: the later call must stand on its own
+        let r0 = (&c.ra + 12345u32) % &cur.n;
+        rng_prepare(&[&r0]);
+        match guard(|| a.exchange_1()) {
+            Outcome::Ret(Ok(_)) => ctx.class("step_repeated"),
+            _ => {
+                ctx.class("step_repeated_refused");
+                return;
+            }
+        }
+    }
     rng_prepare(&[&c.ra]);
     let ra_lib = match guard(|| a.exchange_1()) {
         Outcome::Ret(Ok(p)) => p,
@@ -137,6 +151,17 @@ fn history(ctx: &mut Ctx, c: &Case, p: &mut Prng) {
     let ref_b = r2::exchange(&c.db, &c.rb, &rb_ref, &pa, &ra_b, &za, &zb, false, c.klen);
     // ---- step 2 (B)
     ctx.eval();
+    if c.repeat && c.subset == 0 {
+        let r0 = (&c.rb + 54321u32) % &cur.n;
+        rng_prepare(&[&r0]);
+        match guard(|| b.exchange_2(&ra_b_lib)) {
+            Outcome::Ret(Ok(_)) => ctx.class("step_repeated"),
+            _ => {
+                ctx.class("step_repeated_refused");
+                return;
+            }
+        }
+    }
     rng_prepare(&[&c.rb]);
     let o2 = guard(|| b.exchange_2(&ra_b_lib));
     let seen = rng_seen();
@@ -283,7 +308,7 @@ pub fn run(ctx: &mut Ctx) {
     for (n, ok) in r2::selftest() {
         ctx.selftest(&n, ok);
     }
-    ctx.require(&["annex_kat", "honest_keys_equal", "step2_rejects_invalid_RA", "step3_rejects", "step4_rejects", "klen=1", "klen=16", "klen=200", "kind=OffCurve", "kind=Negated", "kind=OtherPoint", "kind=BitFlipHash", "kind=PermutedHash", "klen_needs_more_than_255_kdf_blocks", "honest_R_rerandomised_representation", "id_non_ascii_utf8", "key_from_gen_keypair", "key_with_jacobian_public_point", "degenerate_dA_shared_point_infinity_at_B", "degenerate_dB_shared_point_infinity_at_A", "coincident_dA_P_eq_xbarR_doubling_at_B", "coincident_dB_P_eq_xbarR_doubling_at_A", "crafted_valid_R_A", "derived_key_all_zero"]);
+    ctx.require(&["annex_kat", "honest_keys_equal", "step2_rejects_invalid_RA", "step3_rejects", "step4_rejects", "klen=1", "klen=16", "klen=200", "kind=OffCurve", "kind=Negated", "kind=OtherPoint", "kind=BitFlipHash", "kind=PermutedHash", "klen_needs_more_than_255_kdf_blocks", "honest_R_rerandomised_representation", "id_non_ascii_utf8", "key_from_gen_keypair", "key_with_jacobian_public_point", "degenerate_dA_shared_point_infinity_at_B", "degenerate_dB_shared_point_infinity_at_A", "coincident_dA_P_eq_xbarR_doubling_at_B", "coincident_dB_P_eq_xbarR_doubling_at_A", "crafted_valid_R_A", "derived_key_all_zero", "same_static_key_both_parties", "same_id_both_parties"]);
     for s in 0..16 {
         ctx.required.push(format!("subset={:04b}", s));
     }
@@ -300,6 +325,7 @@ pub fn run(ctx: &mut Ctx) {
             rb: r2::hexn("7E07124814B309489125EAED101113164EBF0F3458C5BD88335C1F9D596243D6"),
             subset: 0,
             kind: Kind::OtherPoint,
+            repeat: false,
         };
         ctx.class("annex_kat");
         history(ctx, &case, &mut paux);
@@ -343,6 +369,7 @@ pub fn run(ctx: &mut Ctx) {
                     rb: rand_scalar(&mut q, &c.n),
                     subset: 0,
                     kind: Kind::OtherPoint,
+                    repeat: false,
                 };
                 ctx.class(&format!("crafted:{}", name));
                 responder_with_point(ctx, &case, &pt, "crafted_valid_R_A");
@@ -378,7 +405,7 @@ pub fn run(ctx: &mut Ctx) {
                 }
             }
             let Some(rb) = found else { continue };
-            let case = Case { da, db, ida, idb, klen: 1, ra, rb, subset: 0, kind: Kind::OtherPoint };
+            let case = Case { da, db, ida, idb, klen: 1, ra, rb, subset: 0, kind: Kind::OtherPoint, repeat: false };
             ctx.class("derived_key_all_zero");
             history(ctx, &case, &mut q);
             if rep == 0 {
@@ -426,7 +453,17 @@ pub fn run(ctx: &mut Ctx) {
             rb: rand_scalar(&mut p, &c.n),
             subset: if i % 3 == 0 { 0 } else { ((i / 3) % 16) as u8 },
             kind: kinds[((i / 48) % 5) as usize],
+            repeat: i % 3 == 0 && i % 7 == 3,
         };
+        // aliasing: both parties hold the same static key pair and / or the same identity
+        if i % 50 == 13 || i % 50 == 41 {
+            case.db = case.da.clone();
+            ctx.class("same_static_key_both_parties");
+        }
+        if i % 50 == 29 || i % 50 == 41 {
+            case.idb = case.ida.clone();
+            ctx.class("same_id_both_parties");
+        }
         // degenerate static keys: d = -xbar(R) r mod n makes P + [xbar]R = O, so the peer's shared point is the
         // point at infinity and that peer must report failure (B at step 2 for A's key, A at step 3 for B's key)
         if i % 25 == 7 || i % 25 == 19 {
